@@ -2885,6 +2885,65 @@ def rule_err_frame(prog):
         else:
             out.add("parser", "the error of an expect() is collected inside the Reference it was counted in", True, "",
                     "%d expect() calls, each below an info(..) of its own node" % n_expect, ("escape",))
+    # (foreign) the ranges of the errors in the parser's buffer count *tokens* (AnalyzedSource::errors slices the token vector with
+    # them); the errors a Token carries were made by the lexer and count *bytes*.  Nothing moves errors from a token into the
+    # parser's buffer or into an AstInfo.
+    foreign = None
+    n_buf = 0
+    for b in pbodies:
+        for x in hir.nodes(b["body"], "MethodCall"):
+            if x["m"] not in ("push", "extend", "append", "extend_from_slice", "append_error", "insert"):
+                continue
+            r_ = hir.strip_ref(x["recv"])
+            is_buf = (r_.get("k") == "Field" and r_["name"] in ("error_buffer", "errors")) or x["m"] == "append_error"
+            if not is_buf:
+                continue
+            n_buf += 1
+            for a_ in x.get("args") or []:
+                for y in hir.nodes(a_, "Field"):
+                    if y["name"] == "errors" and "tokens::Token" in (c.tstr(hir.strip(y["base"])["t"]) +
+                                                                   "".join(c.tstr(ad_["to"]) for ad_ in hir.strip(y["base"]).get("adj") or [])):
+                        foreign = foreign or (b, x)
+    if n_buf:
+        out.add("parser", "the errors of a token (byte ranges) are not put among the parser's errors (token ranges)", foreign is None,
+                c.loc(foreign[1]["sp"]) if foreign else "", ("%s hands `token.errors` on; " % foreign[0]["d"] if foreign else "") +
+                "AnalyzedSource::errors() turns every error range into a text range by slicing the token vector with it: the byte range of a "
+                "lexical error (`4294967296` behind seventy characters) is out of bounds there - the diagnostics panic, the broker task dies "
+                "and no request is answered any more (%d pushes looked at)" % n_buf, ("foreign",))
+    # (origin) the walkers of the table builder and of the semantic checker hand every child that sits behind a Reference the origin
+    # `<own origin> + <child>.offset`.  An origin that is accumulated over the children (a running sum of their lengths) is only right
+    # while every child is visited and the children follow each other without a gap.
+    n_org, bad_org = 0, None
+    for b in c.bodies:
+        if not b["p"].startswith("spl_frontend::table::") or "/tests" in c.file_of(b["sp"]):
+            continue
+        for x, parents in hir.walk(b["body"]):
+            if x.get("k") != "MethodCall" or x["m"] not in ("build", "analyze") or not x.get("args"):
+                continue
+            rt_ = c.tstr(hir.strip(x["recv"])["t"]) + "".join(c.tstr(a_["to"]) for a_ in hir.strip(x["recv"]).get("adj") or [])
+            if "Reference<" not in rt_:
+                continue
+            for a_ in x["args"]:
+                if c.tstr(hir.strip(a_)["t"]) != "usize":
+                    continue
+                n_org += 1
+                pl_ = hir.path_local(hir.strip(a_))
+                if not pl_:
+                    continue
+                # a parameter of a closure handed to fold / scan / try_fold as the accumulator?
+                for p_ in parents:
+                    if p_.get("k") == "MethodCall" and p_["m"] in ("fold", "try_fold", "scan", "rfold") and len(p_.get("args") or []) >= 2:
+                        cl_ = hir.strip(p_["args"][1])
+                        if cl_.get("k") == "Closure" and cl_.get("params"):
+                            acc_ids = {bd["id"] for bd in hir.pat_bindings(cl_["params"][0])}
+                            if pl_["id"] in acc_ids and any(y is x for y in hir.nodes(cl_["body"])):
+                                bad_org = bad_org or (b, x)
+    if n_org:
+        out.add("table walkers", "the origin handed to a child is the walker's origin plus that child's offset", bad_org is None,
+                c.loc(bad_org[1]["sp"]) if bad_org else "", ("%s hands down an origin that is accumulated over the children; " % bad_org[0]["d"] if bad_org else "") +
+                "with stray top-level tokens (an error declaration that is skipped) every later declaration is entered with too small an origin: "
+                "its entry range no longer covers it, go-to resolves the name to a wrong token and analyze() takes the procedure for a redeclaration "
+                "(%d origins looked at)" % n_org, ("origin", "entry"))
     # table entries: `range` is the token range of the whole declaration (`decl.to_range().shift(offset)`), because `name` (cloned from
     # the declaration) is relative to the declaration's first token - leading doc comments included.  The handlers cut
     # `tokens[entry.range]` and resolve `entry.name` inside that slice; an entry range that starts anywhere else shifts every name
